@@ -574,14 +574,171 @@ func c04WindowProgs() []*c04Prog {
 	return out
 }
 
+// c04LockWindowProgs: window programs written for the LOCK-AWARE mode of the cooperative
+// scheduler (the programs of c04WindowProgs run in both modes, these in the lock-aware one only).  A handle operation takes only the mutex of its
+// file or directory, never the filesystem lock m.mu, so it can run between two file-mutex
+// sections of a namespace method that holds m.mu all along; only a scheduler that switches
+// goroutines inside the critical section of m.mu reaches these interleavings:
+//   window-dir-listing    listings through directory handles opened beforehand (Readdirnames,
+//                         Readdir, whole and in pages of one, one directory or two directories one
+//                         after the other, two handles on one directory) ‖ Rename of the directory,
+//                         of a child out of / into / within it (also to a name that extends the old one), onto
+//                         an existing name, between the two
+//                         listed directories (and back), of a subdirectory with children, RemoveAll of
+//                         a child subtree, Remove, Mkdir, MkdirAll (two levels), Create, exclusive create;
+//   window-openfile-io    OpenFile with every combination of O_APPEND / O_TRUNC / O_CREATE (read-write,
+//                         write-only, read-only) on an existing file ‖ Write, WriteAt, Truncate (shrinking,
+//                         growing) through another handle on the same file, ‖ Stat; the new handle then
+//                         shows its offset (a one-byte Write, or Seek(0, current) when it is read-only);
+//   window-openfile-append-trunc   the same for the flag words with O_APPEND and O_TRUNC and write access:
+//                         OpenFile seeks to the end and truncates in two separate sections of the file's mutex;
+//   window-create-io      Create over an existing file (truncation in place under m.mu) ‖ Read, ReadAt,
+//                         Write, Truncate, Stat through another handle;
+//   window-meta-hstat     Chmod / Chtimes ‖ Stat through a handle (File.Stat) and by name.
+func c04LockWindowProgs() []*c04Prog {
+	var out []*c04Prog
+	// ---- listings through directory handles ‖ namespace operations
+	hd, hd2, he := c04Slot(0, 0), c04Slot(0, 1), c04Slot(0, 2)
+	names1 := func(h int) string { return c04Item(-1, "HReaddirnames %d 1", h) }
+	infos := func(h, n int) string { return c04Item(-1, "HReaddir %d %d", h, n) }
+	dirSetup := func(subtree bool) []string {
+		st := []string{oMkdir("/d", 0o755), oMkdir("/e", 0o755)}
+		st = append(st, c04MkFile("/d/x", "ab")...)
+		if subtree {
+			st = append(st, oMkdir("/d/s", 0o755))
+			st = append(st, c04MkFile("/d/s/a", "sa")...)
+			st = append(st, c04MkFile("/d/s/b", "sb")...)
+		} else {
+			st = append(st, c04MkFile("/d/y", "cd")...)
+			st = append(st, c04MkFile("/f", "ff")...)
+		}
+		return append(st, oOpen(hd, "/d"), oOpen(hd2, "/d"), oOpen(he, "/e"))
+	}
+	listings := [][]string{
+		{hNames(hd)},
+		{hNames(hd), hNames(he)}, // the old parent, THEN the new one
+		{hNames(he), hNames(hd)},
+		{hNames(hd), hNames(hd2)}, // two handles on one directory
+		{names1(hd), names1(hd), names1(hd)},
+		{infos(hd, -1)},
+		{infos(hd, 1), infos(hd, 1), infos(hd, 1)},
+	}
+	type mut struct {
+		ops     []string
+		subtree bool
+	}
+	muts := []mut{
+		{[]string{oRename("/d", "/g")}, false},
+		{[]string{oRename("/d/x", "/g")}, false},
+		{[]string{oRename("/f", "/d/z")}, false},
+		{[]string{oRename("/d/x", "/d/z")}, false},
+		{[]string{oRename("/d/x", "/d/y")}, false}, // onto an existing name
+		{[]string{oRename("/d/x", "/d/xx")}, false}, // the new name begins with the old one as a string
+		{[]string{oRename("/d/x", "/e/x")}, false},
+		{[]string{oRename("/d/x", "/e/x"), oRename("/e/x", "/d/x")}, false},
+		{[]string{oRemove("/d/x")}, false},
+		{[]string{oMkdir("/d/n", 0o750)}, false},
+		{[]string{oMkdirAll("/d/n/m", 0o750)}, false},
+		{[]string{oCreate(c04Slot(1, 0), "/d/n")}, false},
+		{[]string{oOpenFile(c04Slot(1, 0), "/d/n", c04Excl, 0o640)}, false},
+		{[]string{oRemoveAll("/d/s")}, true},
+		{[]string{oRename("/d/s", "/e/s")}, true}, // a directory with children between the two listed ones
+		{[]string{oRename("/d", "/g")}, true},     // nested: /d/s/a, /d/s/b follow
+	}
+	for _, ls := range listings {
+		for _, m := range muts {
+			out = append(out, &c04Prog{Focus: "window-dir-listing", Setup: dirSetup(m.subtree), Threads: [][]string{ls, m.ops}})
+		}
+	}
+	// ---- OpenFile(flags) ‖ I/O through another handle on the same file
+	s0, s1 := c04Slot(0, 0), c04Slot(1, 0)
+	var flags []int
+	for _, acc := range []int{os.O_RDWR, os.O_WRONLY} {
+		for bits := 0; bits < 8; bits++ {
+			fl := acc
+			if bits&1 != 0 {
+				fl |= os.O_APPEND
+			}
+			if bits&2 != 0 {
+				fl |= os.O_TRUNC
+			}
+			if bits&4 != 0 {
+				fl |= os.O_CREATE
+			}
+			flags = append(flags, fl)
+		}
+	}
+	flags = append(flags, os.O_RDONLY|os.O_APPEND, os.O_RDONLY|os.O_APPEND|os.O_TRUNC)
+	for _, fl := range flags {
+		for _, other := range [][]string{
+			{hWrite(s1, "WWWWWWWW")}, // extends the file from 4 to 8 bytes
+			{hWriteAt(s1, "ZZ", 4)},
+			{hTruncate(s1, 2)},
+			{hTruncate(s1, 6)},
+			{oStat("/f")},
+		} {
+			p := &c04Prog{Focus: "window-openfile-io"}
+			writable := fl&(os.O_RDWR|os.O_WRONLY) != 0
+			if writable && fl&os.O_APPEND != 0 && fl&os.O_TRUNC != 0 {
+				p.Focus = "window-openfile-append-trunc"
+			}
+			p.Setup = append(p.Setup, c04MkFile("/f", "abcd")...)
+			p.Setup = append(p.Setup, oOpenFile(s1, "/f", os.O_RDWR, 0))
+			show := hWrite(s0, "N") // where the new handle's offset is
+			if !writable {
+				show = hSeek(s0, 0, 1)
+			}
+			p.Threads = [][]string{{oOpenFile(s0, "/f", fl, 0o634), show}, other}
+			out = append(out, c04ExpandStats(p))
+		}
+	}
+	// ---- Create over an existing file ‖ I/O through another handle
+	hstat := func(h int) string { return c04Item(-1, "HStat %d", h) }
+	for _, other := range [][]string{
+		{hRead(s1, 8)},
+		{hReadAt(s1, 8, 0)},
+		{hRead(s1, 2), hRead(s1, 2)},
+		{hWrite(s1, "WW"), hReadAt(s1, 8, 0)},
+		{hTruncate(s1, 6)},
+		{hstat(s1)},
+		{oStat("/f")},
+	} {
+		p := &c04Prog{Focus: "window-create-io"}
+		p.Setup = append(p.Setup, c04MkFile("/f", "abcd")...)
+		p.Setup = append(p.Setup, oOpenFile(s1, "/f", os.O_RDWR, 0))
+		p.Threads = [][]string{{oCreate(s0, "/f"), hWrite(s0, "N")}, other}
+		out = append(out, c04ExpandStats(p))
+	}
+	// ---- Chmod / Chtimes ‖ Stat through a handle.  File.Stat returns a live FileInfo whose four
+	// accessors are read one after the other: against ONE call that changes one field that is an
+	// atomic read; against two changing calls the Stat is made by name (lookup + one call per accessor)
+	for _, target := range []string{"/f", "/d"} {
+		for _, ch := range [][]string{{oChmod(target, 0o600)}, {oChtimes(target, 1000002000)}, {oChmod(target, 0o600), oChtimes(target, 1000002000)}} {
+			for _, rd := range [][]string{{hstat(s1)}, {hstat(s1), hstat(s1)}, {oStat(target)}} {
+				if len(ch) > 1 && rd[0] == hstat(s1) {
+					continue
+				}
+				p := &c04Prog{Focus: "window-meta-hstat"}
+				p.Setup = append(p.Setup, oMkdir("/d", 0o755))
+				p.Setup = append(p.Setup, c04MkFile("/f", "abcd")...)
+				p.Setup = append(p.Setup, oOpen(s1, target))
+				p.Threads = [][]string{ch, rd}
+				out = append(out, c04ExpandStats(p))
+			}
+		}
+	}
+	return out
+}
+
 // ---------------------------------------------------------------- windows of real preemption
 //
 // A handle on a directory lists it under the directory's mutex only (mem.File does not know
 // m.mu), so a namespace method is atomic for such listings only if it changes each directory
 // under ONE hold of that directory's mutex and related directories under simultaneous holds.
-// The cooperative scheduler never yields while a lock is held and cannot open these windows;
-// the programs below run under the real scheduler (stress mode, both tiers) and are sized so
-// that the windows are hit within a few hundred rounds:
+// The depth-0 mode of the cooperative scheduler never yields while a lock is held and cannot open
+// these windows (its lock-aware mode can: c04LockWindowProgs, small directories, every schedule
+// under a preemption bound); the programs below run under the REAL scheduler (stress mode, both
+// tiers), with large directories, and are sized so that the windows are hit within a few hundred rounds:
 //   dir-children  Rename of a directory with many children ‖ listings through handles on it
 //                 opened beforehand: every listing shows all the children (base names do not
 //                 change) - renameDescendants used to re-register them one by one;
